@@ -6,6 +6,7 @@ import (
 	"go/token"
 	"go/types"
 	"sort"
+	"strings"
 
 	"golang.org/x/tools/go/ssa"
 )
@@ -480,7 +481,7 @@ func ruleErr(c *Ctx) []*Ob {
 			}
 			evs := errValues(call)
 			if len(evs) == 0 {
-				if except[fn+"|"+name] {
+				if except[fn+"|"+name] || (strings.HasSuffix(name, ".Stop") && isErrorPathCleanup(f)) {
 					o.add(fn, construct, c.instrPos(ci), true, "table exception: error path clean-up, first error wins").Trivial = true
 					continue
 				}
@@ -496,7 +497,7 @@ func ruleErr(c *Ctx) []*Ob {
 			}
 			if fate.escapes {
 				o.add(fn, construct, c.instrPos(ci), true, "error "+fate.how)
-			} else if except[fn+"|"+name] {
+			} else if except[fn+"|"+name] || (strings.HasSuffix(name, ".Stop") && isErrorPathCleanup(f)) {
 				o.add(fn, construct, c.instrPos(ci), true, "table exception: error path clean-up, first error wins").Trivial = true
 			} else {
 				o.add(fn, construct, c.instrPos(ci), false,
@@ -766,7 +767,7 @@ func ruleErr4(c *Ctx) []*Ob {
 			if len(errValues(call)) == 0 {
 				continue // never extracted: R-ERR reports it
 			}
-			if except[fn+"|"+names[k]] {
+			if except[fn+"|"+names[k]] || (strings.HasSuffix(names[k], ".Stop") && isErrorPathCleanup(f)) {
 				o.trivial(fn, construct, c.instrPos(call), "table exception (see the rule's exceptions)")
 				continue
 			}
@@ -1265,91 +1266,208 @@ func ruleAbort1(c *Ctx) []*Ob {
 		o.add(fn, "parameter cancelCh", c.pos(f.Pos()), false, "anchor lost: mergeInto has no cancelCh parameter")
 		return o.list
 	}
-	n := 0
-	eachInstr(f, func(i ssa.Instruction) {
-		sel, ok := i.(*ssa.Select)
-		if !ok {
-			return
-		}
-		for k, st := range sel.States {
-			if st.Dir != types.RecvOnly || !sameValue(st.Chan, cancel) {
-				continue
+	// caseBlock: for a select in g with a receive state on channel value ch, the block entered when that state fired
+	caseBlock := func(sel *ssa.Select, k int) *ssa.BasicBlock {
+		var idx ssa.Value
+		if refs := sel.Referrers(); refs != nil {
+			for _, r := range *refs {
+				if e, isE := r.(*ssa.Extract); isE && e.Index == 0 {
+					idx = e
+				}
 			}
-			n++
-			// the block taken when index == k
-			var idx ssa.Value
-			if refs := sel.Referrers(); refs != nil {
-				for _, r := range *refs {
-					if e, isE := r.(*ssa.Extract); isE && e.Index == 0 {
-						idx = e
+		}
+		if idx == nil {
+			return nil
+		}
+		if refs := idx.Referrers(); refs != nil {
+			for _, r := range *refs {
+				b, isB := r.(*ssa.BinOp)
+				if !isB || b.Op != token.EQL || !isConstInt(b.Y, int64(k)) {
+					continue
+				}
+				if rr := b.Referrers(); rr != nil {
+					for _, u := range *rr {
+						if iff, isIf := u.(*ssa.If); isIf {
+							return iff.Block().Succs[0]
+						}
 					}
 				}
 			}
-			var start *ssa.BasicBlock
-			if idx != nil {
-				if refs := idx.Referrers(); refs != nil {
-					for _, r := range *refs {
-						b, isB := r.(*ssa.BinOp)
-						if !isB || b.Op != token.EQL || !isConstInt(b.Y, int64(k)) {
-							continue
+		}
+		return nil
+	}
+	type branch struct {
+		start *ssa.BasicBlock
+		at    ssa.Instruction
+	}
+	var branches []branch
+	undecided := ""
+	eachInstr(f, func(i ssa.Instruction) {
+		switch x := i.(type) {
+		case *ssa.Select:
+			for k, st := range x.States {
+				if st.Dir == types.RecvOnly && sameValue(st.Chan, cancel) {
+					if b := caseBlock(x, k); b != nil {
+						branches = append(branches, branch{b, i})
+					} else {
+						undecided = c.instrPos(i)
+					}
+				}
+			}
+		case *ssa.Call:
+			// a helper that polls the channel and reports the answer as a bool: `if isCanceled(cancelCh) {`
+			h := x.Call.StaticCallee()
+			if h == nil || h.Pkg != c.Moss || h.Blocks == nil {
+				return
+			}
+			pi := -1
+			for k, a := range x.Call.Args {
+				if sameValue(a, cancel) {
+					pi = k
+				}
+			}
+			if pi < 0 || pi >= len(h.Params) || h.Signature.Results().Len() != 1 {
+				return
+			}
+			// what does the helper return when the channel fired?
+			var fired *bool
+			eachInstr(h, func(j ssa.Instruction) {
+				sel, ok := j.(*ssa.Select)
+				if !ok {
+					return
+				}
+				for k, st := range sel.States {
+					if st.Dir != types.RecvOnly || !sameValue(st.Chan, h.Params[pi]) {
+						continue
+					}
+					cb := caseBlock(sel, k)
+					if cb == nil {
+						continue
+					}
+					walk(point{cb, 0}, walkOpts{noInline: true, visit: func(q ssa.Instruction, t *tracker) bool {
+						if r, isR := q.(*ssa.Return); isR && len(r.Results) == 1 {
+							if v, isK := constBool(t.resolve(r.Results[0])); isK {
+								fired = &v
+							} else if v, isK := constBool(r.Results[0]); isK {
+								fired = &v
+							}
+							return true
 						}
-						if rr := b.Referrers(); rr != nil {
-							for _, u := range *rr {
-								if iff, isIf := u.(*ssa.If); isIf {
-									start = iff.Block().Succs[0]
+						return false
+					}})
+				}
+			})
+			if fired == nil {
+				return
+			}
+			if refs := x.Referrers(); refs != nil {
+				for _, r := range *refs {
+					iff, isIf := r.(*ssa.If)
+					if !isIf {
+						if u, isU := r.(*ssa.UnOp); isU && u.Op == token.NOT {
+							if rr := u.Referrers(); rr != nil {
+								for _, r2 := range *rr {
+									if iff2, ok2 := r2.(*ssa.If); ok2 {
+										si := 1
+										if !*fired {
+											si = 0
+										}
+										branches = append(branches, branch{iff2.Block().Succs[si], i})
+									}
 								}
 							}
 						}
+						continue
 					}
+					si := 0
+					if !*fired {
+						si = 1
+					}
+					branches = append(branches, branch{iff.Block().Succs[si], i})
 				}
 			}
-			if start == nil {
-				o.add(fn, "case <-cancelCh", c.instrPos(i), false, "undecided: the branch taken when cancelCh is ready was not found")
-				continue
-			}
-			bad := ""
-			// with a defer in the function the results are spilled into cells: `return nil` is a store of nil into the error cell
-			errCells := map[ssa.Value]bool{}
-			eachInstr(f, func(q ssa.Instruction) {
-				if r, isR := q.(*ssa.Return); isR && len(r.Results) > 0 {
-					if ld, isLd := r.Results[len(r.Results)-1].(*ssa.UnOp); isLd && ld.Op == token.MUL {
-						if a, isA := ld.X.(*ssa.Alloc); isA {
-							errCells[a] = true
-						}
-					}
-				}
-			})
-			walk(point{start, 0}, walkOpts{noInline: true, visit: func(j ssa.Instruction, t *tracker) bool {
-				if bad != "" {
-					return true
-				}
-				if st, isSt := j.(*ssa.Store); isSt && errCells[st.Addr] {
-					if isNilConst(st.Val) {
-						bad = c.instrPos(j)
-					}
-					return true // the function's result is decided here
-				}
-				if r, isR := j.(*ssa.Return); isR {
-					if isNilConst(r.Results[len(r.Results)-1]) {
-						bad = c.instrPos(j)
-					}
-					return true
-				}
-				if j == ssa.Instruction(sel) {
-					bad = c.instrPos(j) + " (the loop goes on)"
-					return true
-				}
-				return false
-			}})
-			why := "a ready cancelCh leads to an error return"
-			if bad != "" {
-				why = "after cancelCh was found ready a path reaches " + bad + " without an error: the aborted merge reports success, its truncated output is published by compact in a new file and the complete old file is scheduled for removal"
-			}
-			o.add(fn, "case <-cancelCh", c.instrPos(i), bad == "", why)
 		}
 	})
-	if n == 0 {
-		o.add(fn, "case <-cancelCh", c.pos(f.Pos()), false, "anchor lost: mergeInto no longer polls cancelCh")
+	if undecided != "" {
+		o.add(fn, "case <-cancelCh", undecided, false, "undecided: the branch taken when cancelCh is ready was not found")
+	}
+	if len(branches) == 0 && undecided == "" {
+		o.add(fn, "case <-cancelCh", c.pos(f.Pos()), false, "anchor lost: mergeInto no longer polls cancelCh (directly or through a helper)")
+		return o.list
+	}
+	errCells := map[ssa.Value]bool{}
+	eachInstr(f, func(q ssa.Instruction) {
+		if r, isR := q.(*ssa.Return); isR && len(r.Results) > 0 {
+			if ld, isLd := r.Results[len(r.Results)-1].(*ssa.UnOp); isLd && ld.Op == token.MUL {
+				if a, isA := ld.X.(*ssa.Alloc); isA {
+					errCells[a] = true
+				}
+			}
+		}
+	})
+	for _, br := range branches {
+		bad := ""
+		walk(point{br.start, 0}, walkOpts{noInline: true, visit: func(j ssa.Instruction, t *tracker) bool {
+			if bad != "" {
+				return true
+			}
+			if st, isSt := j.(*ssa.Store); isSt && errCells[st.Addr] {
+				if isNilConst(st.Val) {
+					bad = c.instrPos(j)
+				}
+				return true // the function's result is decided here
+			}
+			if r, isR := j.(*ssa.Return); isR {
+				if isNilConst(r.Results[len(r.Results)-1]) {
+					bad = c.instrPos(j)
+				}
+				return true
+			}
+			if j == br.at {
+				bad = c.instrPos(j) + " (the loop goes on)"
+				return true
+			}
+			return false
+		}})
+		why := "a ready cancelCh leads to an error return"
+		if bad != "" {
+			why = "after cancelCh was found ready a path reaches " + bad + " without an error: the aborted merge reports success, its truncated output is published by compact in a new file and the complete old file is scheduled for removal"
+		}
+		o.add(fn, "case <-cancelCh", c.instrPos(br.at), bad == "", why)
 	}
 	return o.list
+}
+
+// isErrorPathCleanup: f has the shape of an error-path clean-up helper - it takes an error and every return hands
+// exactly that error back (writeSegments' onError closure, or the same code as a method): whatever it stops or
+// closes on the way fails "second"; the error being returned is the first one.
+func isErrorPathCleanup(f *ssa.Function) bool {
+	var errParam *ssa.Parameter
+	for k, p := range f.Params {
+		if f.Signature.Recv() != nil && k == 0 {
+			continue
+		}
+		if isErrorType(p.Type()) {
+			if errParam != nil {
+				return false
+			}
+			errParam = p
+		}
+	}
+	res := f.Signature.Results()
+	if errParam == nil || res.Len() != 1 || !isErrorType(res.At(0).Type()) {
+		return false
+	}
+	ok, n := true, 0
+	eachInstr(f, func(i ssa.Instruction) {
+		if r, isR := i.(*ssa.Return); isR {
+			n++
+			for _, og := range origins(r.Results[0]) {
+				if og != ssa.Value(errParam) {
+					ok = false
+				}
+			}
+		}
+	})
+	return ok && n > 0
 }
